@@ -31,7 +31,7 @@ func (c *Ctx) references(scs []*Scenario, cfgs func(*Scenario) []Cfg) map[refKey
 		for _, cfg := range cfgs(sc) {
 			sp := soloSpec(fmt.Sprintf("ref/%s/%s", sc.Name, cfg), sc, cfg)
 			sp.Order.Pin = nil
-			sp.Budget = 1000000000
+			sp.Budget = 400000000
 			specs = append(specs, sp)
 			refs = append(refs, &Ref{Spec: sp, Sc: sc, Cfg: cfg})
 		}
@@ -587,7 +587,11 @@ func (c *Ctx) stageHistories(refs map[refKey]*Ref, keys []refKey) {
 			ops = append(ops, dops...)
 			h.expect[p+"t"] = k
 			// extras: write the same document again; render the same html again
-			switch rng.Intn(4) {
+			extra := rng.Intn(4)
+			if sc.Expect.LegacyAttrs {
+				extra = 1 // documents with presentational attributes: always re-render (with the hints toggle below)
+			}
+			switch extra {
 			case 0:
 				ops = append(ops, Op{Op: "write", ID: p + "t2", Doc: p + "d", Zoom: cfg.Zoom})
 				h.expect[p+"t2"] = k
@@ -599,7 +603,7 @@ func (c *Ctx) stageHistories(refs map[refKey]*Ref, keys []refKey) {
 					}
 				}
 				rop.ID = p + "d2"
-				if rng.Intn(3) == 0 && !rop.Hints {
+				if (rng.Intn(3) == 0 || sc.Expect.LegacyAttrs) && !rop.Hints {
 					// the same parsed *tree.HTML first rendered WITH presentational hints (result
 					// discarded), then without: nothing of the first render may stick to it
 					hop := rop
@@ -992,9 +996,9 @@ func (c *Ctx) stageRace(refs map[refKey]*Ref, keys []refKey) {
 		return
 	}
 	rng := stream(c.Seed, "race")
-	rounds := 10
+	rounds := 24
 	if c.Tier == "thorough" {
-		rounds = 200
+		rounds = 300
 	}
 	var small []refKey
 	for _, k := range keys {
